@@ -275,7 +275,10 @@ impl Minimizer {
                             Some(o) => match field {
                                 0 => o.format = false,
                                 1 => o.sig = false,
-                                2 => o.ansi = false,
+                                2 => {
+                                    o.ansi = false;
+                                    o.color = false;
+                                }
                                 _ => o.target = "sql.any".into(),
                             },
                             None => continue,
